@@ -28,8 +28,8 @@ func C10(r *core.Report) {
 	c10MetadataKeys(r)
 	c10GsfaVersionGate(r)
 	c10AssertGates(r)
-	r.Floor("C10.R6", 4)
-	r.Floor("C10.R5", 2)
+	r.Floor("C10.R6", 3)
+	r.Floor("C10.R5", 1)
 	c10MetadataWrittenAsGiven(r)
 	r.Floor("C10.R7", 2)
 	r.Floor("C10.R1", 5)
